@@ -131,7 +131,10 @@ func verifyRawCerts(rawCerts [][]byte, certHashes []multihash.DecodedMultihash) 
 	if err != nil {
 		return err
 	}
-	// TODO: is this the best (and complete?) way to identify RSA certificates?
+	// The certificate's own key must not be RSA, whatever algorithm its issuer signed it with.
+	if cert.PublicKeyAlgorithm == x509.RSA {
+		return errors.New("cert uses RSA")
+	}
 	switch cert.SignatureAlgorithm {
 	case x509.SHA1WithRSA, x509.SHA256WithRSA, x509.SHA384WithRSA, x509.SHA512WithRSA, x509.MD2WithRSA, x509.MD5WithRSA,
 		x509.SHA256WithRSAPSS, x509.SHA384WithRSAPSS, x509.SHA512WithRSAPSS:
